@@ -205,6 +205,18 @@ def generate(rng, n, tier="quick"):
         case = session({"escape": escn}, [("main", L + "{{#with v}}{{x}}{{/with}}" + R)], {"api": "render", "name": "main"}, {"v": v, "x": "OUTER"})
         case["id"] = "%s-thmin%04d" % (ID, k)
         out.append((case, {"mode": "thmin", "oracle": ["must", L + escape_of(escn)(txt) + R]}))
+    # the family of the Lean theorem C01.this_in_with_is_the_with_value (Props/C01d): L ++ {{#with v}}{{this}}{{/with}} ++ R for every truthy
+    # data.v: escape(text of data.v) – inside the block the current context is the value the helper was given (exact)
+    tr = rng.fork("thmthis")
+    for k in range(40 if tier == "quick" else 1000):
+        r = tr.fork(k)
+        L, R = thm_left(r), thm_right(r)
+        val, txt = r.pick([("<b>&\"'`=", "<b>&\"'`="), ("inner", "inner"), (7, "7"), (-2, "-2"), (True, "true"), ("a\nb", "a\nb"), ([1, "a"], "[1, a]"), ({"k": 1}, "[object]"),
+                           ({"this": "T"}, "[object]"), ([[], {}], "[[], [object]]"), (2.5, "2.5")])
+        escn = r.pick(["none", "mark", "html"])
+        case = session({"escape": escn}, [("main", L + "{{#with v}}{{this}}{{/with}}" + R)], {"api": "render", "name": "main"}, {"v": val, "this": "FIELD"})
+        case["id"] = "%s-thmthis%04d" % (ID, k)
+        out.append((case, {"mode": "thmthis", "oracle": ["must", L + escape_of(escn)(txt) + R]}))
     return out
 
 
